@@ -189,6 +189,33 @@ def check(ctx):
     from .c19 import check_delegation
 
     check_delegation(ctx, "C11-e", only_array=True)
+    # ---- C11-h length-0 arrays come back as length-0 arrays: no reduction without an identity (min, max, argmin, argmax,
+    # ptp ...) is taken over the pressure argument - not even for a log line, whose arguments are evaluated whatever the
+    # log level: np.min of an empty array raises
+    import ast as _ast
+
+    NOID = {"min", "max", "amin", "amax", "argmin", "argmax", "ptp", "nanmin", "nanmax", "nanargmin", "nanargmax"}
+    n_h = 0
+    for mn in ("bluebonnet.fluids.oil", "bluebonnet.fluids.water", "bluebonnet.fluids.fluid"):
+        m = P.module(mn)
+        for fi in [f_ for f_ in P.functions.values() if f_.module is m and f_.parent is None and "pressure" in f_.params]:
+            n_h += 1
+            sites = []
+            for c in _ast.walk(fi.node):
+                if not isinstance(c, _ast.Call):
+                    continue
+                nm = c.func.attr if isinstance(c.func, _ast.Attribute) else c.func.id if isinstance(c.func, _ast.Name) else ""
+                if nm not in NOID:
+                    continue
+                subj = c.func.value if isinstance(c.func, _ast.Attribute) and not (isinstance(c.func.value, _ast.Name) and c.func.value.id in ("np", "numpy")) else (c.args[0] if c.args else None)
+                if subj is not None and any(isinstance(x, _ast.Name) and x.id == "pressure" for x in _ast.walk(subj)) and len(c.args) <= 1:
+                    sites.append(f"line {c.lineno}: {_ast.unparse(c)[:50]}")
+            ctx.check(
+                not sites, "C11-h", fi.qualname + ":empty arrays", fi.where(),
+                "no reduction without an identity (min / max / argmin / argmax / ptp) is taken over the pressure argument: a length-0 array is answered with a length-0 array, not with ValueError",
+                signature="reduction over pressure " + "; ".join(sites)[:120], sites=sites, nontrivial=False,
+            )
+    ctx.floor("C11-h", n_h, 12, "pressure-taking functions")
     ctx.floor("C11", len(ctx.obligs), 45, "array-evaluation obligations")
 
 
